@@ -10,7 +10,12 @@ from . import c03
 ASSUMPTIONS = ["bits: to_bits(n) -> from_bits -> val() on the real code for widths n independent of the global bitlength, values in and "
                "just outside [0, 2^n); the width actually enforced is determined by exhaustive witness search over p = 97 (as in C03)",
                "packers: random schemas built from PackBool, PackIntMod (powers of two and other moduli, incl. 1), PackList, PackRepeat; "
-               "pack/unpack on plain values and on secret values; compared with the original value; out-of-range plain values must raise"]
+               "pack/unpack on plain values and on secret values; compared with the original value; out-of-range plain values must raise",
+               "range check on unpack: unpack alone on caller-supplied RAW secret bits (PrivVal(0/1), the branch of PackIntMod.unpack that "
+               "makes the check) for schemas of 1-3 fields, moduli that are / are not powers of two and moduli wider than the bitlength, field "
+               "values mod-1, mod, mod+1, 0, 2^n-1, random: run-time accept/reject = (value < mod for every field); with error checking off the "
+               "emitted system with the bit wires fixed is satisfiable iff that relation holds (exhaustive over p = 97; recorded witness on the "
+               "large fields); model-compared (result, wire expression, constraints) through the K|..|U line of Driver/ProtoStruct.lean"]
 PARTIAL = ["secret round trip: proved/validated at value level for bounded-integer leaves; PackBool on the boolean type raises "
            "(finding C16-pack-bool); PackIntMod.unpack performs no range check on the bits produced by pack (finding C16-unpack-unchecked)"]
 LEVELS = "VS"
@@ -120,7 +125,8 @@ def explore(ctx, extended=False, focus=None):
     ex.rule = ("(a) bit round trips at widths {0,1,2,3,bl-1,bl,bl+1,bl+3,2bl} with values 0, 1, 2^n-1, 2^n, 2^n+1, -1, random, "
                "model-compared at V+S; (b) width enforcement by exhaustive witness search over p=97 (to_bits(n), assert_positive(n)); "
                "(c) packer schemas of depth <= 3 on plain values, plain out-of-range values, secret values (integers as PrivVal; "
-               "booleans as PrivVal and as PrivValBool); distinct = distinct (schema, value, mode) / (width, value, bitlength)")
+               "booleans as PrivVal and as PrivValBool); (d) unpack alone on raw secret bits at and around each modulus (see assumptions); "
+               "distinct = distinct (schema, value, mode) / (width, value, bitlength)")
     n = ctx.n(750, 18000) * (2 if extended else 1)
     cases = corpus_cases("C16") + [bits_case(ctx.rnd, f"c16_{i}", small=False) for i in range(n)]
     twice = [bits_twice_case(ctx.rnd, f"c16t_{i}") for i in range(n // 2)]
@@ -234,6 +240,8 @@ def explore(ctx, extended=False, focus=None):
 
 def replay(ctx, payload):
     r = payload["replay"]
+    if "history" in r or r.get("job", {}).get("mode") == "unpack-raw":
+        return c03.replay(ctx, payload)
     if "case" in r:
         replay_case(r["case"])
     else:
